@@ -1,4 +1,4 @@
-// unit: formulas -- haloswap pricing formulas over the bignumber contracts (C01, C06, C12, C15, C05)
+// unit: pair -- haloswap asset helpers, formulas and the halo-pair contract handlers
 use vstd::prelude::*;
 use vstd::std_specs::ops::*;
 use vstd::std_specs::cmp::*;
@@ -13,6 +13,8 @@ pub mod shim {
 use super::*;
 //%include shim_u256.rs
 //%include shim_uint128.rs
+//%include shim_cw.rs
+//%include helpers.rs
 }
 pub use shim::*;
 pub mod math {
@@ -32,5 +34,11 @@ use super::*;
 //%include formulas_swap.rs
 //%include formulas_misc.rs
 }
+pub use formulas::*;
+pub mod asset {
+use super::*;
+//%include haloswap_asset.rs
+}
+pub use asset::*;
 } // verus!
 fn main() {}
